@@ -147,6 +147,7 @@ def _run_shard(cases, workdir, shard_no, timeout_per_shard, env=None, max_hangs=
     pos = 0
     attempt = 0
     hangs = 0
+    kills = {}
     while pos < len(cases):
         if max_hangs is not None and hangs >= max_hangs:
             for c in cases[pos:]:
@@ -198,6 +199,15 @@ def _run_shard(cases, workdir, shard_no, timeout_per_shard, env=None, max_hangs=
         ids = [c.id for c in chunk]
         if begun is not None and begun in ids:
             k = ids.index(begun)
+            if rc == -9 and not timed_out:
+                # SIGKILL from outside (the kernel's out-of-memory killer): not something the interpreter did. Try the case
+                # again twice, then leave it without a result (callers count a missing result as inconclusive).
+                kills[begun] = kills.get(begun, 0) + 1
+                if kills[begun] <= 2:
+                    pos += k
+                else:
+                    pos += k + 1
+                continue
             if timed_out:
                 hangs += 1
                 results[begun] = {"id": begun, "outcome": "hang", "stage": "?"}
@@ -276,6 +286,10 @@ def run_binary(args, stdin_data=b"", release=False, timeout=30, env=None, cwd=No
         return {"rc": None, "out": b"", "err": str(ex).encode(), "timeout": False, "spawn_error": True}
     try:
         out, err = p.communicate(None if stdin_file is not None else stdin_data, timeout=timeout)
+        if p.returncode == -9:
+            # SIGKILL never comes from the interpreter itself (panic = 101, abort = -6, fault = -11): the kernel's
+            # out-of-memory killer or an operator took the process away. Inconclusive, like a timeout.
+            return {"rc": None, "out": out or b"", "err": err or b"", "timeout": True, "killed": True}
         return {"rc": p.returncode, "out": out or b"", "err": err or b"", "timeout": False}
     except subprocess.TimeoutExpired:
         p.kill()
